@@ -403,3 +403,15 @@ _extend('C14',
         'and orphaned private constants gone, nothing else; become: state, parents and data taken, children kept, replacement gone; flag write: '
         'nothing else changes) for every consistent model with one edge per ordered node pair - which every script-reachable model has; a consistent '
         'model with two parallel edges is the counterexample that shows the side condition necessary (DiGraph keeps one of them on re-adding).')
+_extend('C01',
+        ' MODEL_OK (C01_model_ok, C01_agree_ok): for every case whose table is exactly the consumed batches, with n_samples > 0 and at least '
+        'n_samples accepted draws among them, the model\'s own answer passes the decidable predicate ok, hence agree c = true implies ok c = true: an '
+        'implementation that agrees with the model has the property; both side conditions are shown necessary by computed counterexamples '
+        '(n_samples = 0: the reported threshold is buffer row 0; fewer accepted than n_samples: unfilled rows are returned).')
+_extend('C05',
+        ' MODEL_OK (C05_store_agree_implies_store_ok, C05_model_store_ok, C05_model_case_agrees, C05_model_ok_partial): at the layout level agreement '
+        'with the model implies the read-back clause, and the model\'s own stored bytes pass it for every list of in-bounds arrays of one shape '
+        '(in-bounds shown necessary); at the pool level the model\'s own history of runs agrees with itself and its ok reduces to the run clause, '
+        'which is established on concrete histories only (PARTIAL: the general statement needs the composition of the C03 log theorem with the '
+        'pool loader\'s growth of outputs along a run; a SameHandler run with other outputs than its handler\'s - impossible in ELFI - is a '
+        'computed counterexample that any general statement must exclude).')
